@@ -416,14 +416,18 @@ func runOne(name string, cfg CheckCfg, tier, repo, only string, workers int, noN
 				fmt.Fprintf(os.Stderr, "FAIL %s | %s | obs: %s | in: %s\n", hc.Name, f.Msg, strings.Join(f.Observes, " "), strings.Join(f.Named, " "))
 			}
 		}
-		// validation samples
-		for i, s := range h.samples {
-			if tier == "quick" && i >= 20 {
-				break
-			}
-			if i >= 200 {
-				break
-			}
+		// validation samples: every completed path when there are few, else an even selection
+		limit := 300
+		if tier == "thorough" {
+			limit = 1000
+		}
+		stride := 1
+		if len(h.samples) > limit {
+			stride = (len(h.samples) + limit - 1) / limit
+		}
+		sort.Slice(h.samples, func(i, j int) bool { return fmt.Sprint(h.samples[i].Trace) < fmt.Sprint(h.samples[j].Trace) })
+		for i := seed % stride; i < len(h.samples); i += stride {
+			s := h.samples[i]
 			batch = append(batch, replayItem{ID: fmt.Sprintf("val:%s:%d", hc.Name, i), Harness: hc.Name, Vector: s.Vector, Params: eng.params, Known: openIDs(eng),
 				expectObs: s.Observes, expectOutcome: s.Outcome, ExpectObs: s.Observes, ExpectOutcome: s.Outcome, Repeat: 40})
 		}
